@@ -174,7 +174,7 @@ def chk_threads(case, note):
     rng = random.Random(case["ctx_seed"])
     jobs = []
     for _ in range(24):
-        addr = rng.getrandbits(24)
+        addr = gen.addr24(rng)
         df = rng.choice(AP + AA)
         m = build(addr, df, rng.choice([56, 112]), rng.getrandbits(83), rng.choice("UL"))
         jobs.append(("icao", pms.icao, (m,), ("ok", "%06X" % addr)))
@@ -210,7 +210,7 @@ def first_jobs(rng):
     for _ in range(40):
         df = rng.choice([17, 18, 11, 4, 5, 20, 21, 0, 16, 24, 19])
         n = 56 if df in (0, 4, 5, 11) else 112
-        addr = rng.getrandbits(24)
+        addr = gen.addr24(rng)
         msg = build(addr, df, n, rng.getrandbits(n - 29), rng.choice("UL"))
         exp = "%06X" % addr if (df in AP or df in AA) else None
         jobs.append(("common.icao", (msg,), (lambda got, exp=exp: None if got[0] == "ok" and (got[1] is None if exp is None else (isinstance(got[1], str) and got[1].upper() == exp)) else "transponder address %s" % exp)))
